@@ -705,27 +705,37 @@ func ReachableAfterDeep(root *ssa.Function, from, target ssa.Instruction) bool {
 // the edges of the other outcome are returned (to be cut). The Go idiom is
 // `if cond && t.tryServe(...) { return }` with the effect on the helper's true path only.
 func AfterCallCuts(from, cs ssa.Instruction) map[Edge]bool {
+	cut, _ := afterCallCuts(from, cs, nil)
+	return cut
+}
+
+// afterCallCuts is AfterCallCuts restricted to the returns the helper can reach after
+// `from` WITHOUT executing an instruction satisfying avoid (the paths on which an obligation
+// is still open). none reports that no return can be reached that way at all.
+func afterCallCuts(from, cs ssa.Instruction, avoid func(ssa.Instruction) bool) (cuts map[Edge]bool, none bool) {
 	if from == cs || from.Parent() == cs.Parent() {
-		return nil
+		return nil, false
 	}
 	cv, ok := cs.(*ssa.Call)
 	if !ok || cv.Call.StaticCallee() != from.Parent() {
-		return nil
+		return nil, false
 	}
 	h := from.Parent()
 	if h.Signature.Results().Len() != 1 {
-		return nil
+		return nil, false
 	}
 	var val, have bool
 	same := true
+	anyReturn := false
 	Instrs(h, func(in ssa.Instruction) {
 		r, ok := in.(*ssa.Return)
 		if !ok || len(r.Results) != 1 || !same || in.Block() == h.Recover {
 			return
 		}
-		if ReachInstrFrom(After(from), r, nil, nil) == nil {
+		if ReachInstrFrom(After(from), r, nil, avoid) == nil {
 			return
 		}
+		anyReturn = true
 		b, isB := ConstBool(Strip(r.Results[0]))
 		if !isB || (have && b != val) {
 			same = false
@@ -733,8 +743,11 @@ func AfterCallCuts(from, cs ssa.Instruction) map[Edge]bool {
 		}
 		val, have = b, true
 	})
+	if !anyReturn {
+		return nil, true
+	}
 	if !same || !have {
-		return nil
+		return nil, false
 	}
 	cut := map[Edge]bool{}
 	for _, b := range cs.Parent().Blocks {
@@ -757,7 +770,7 @@ func AfterCallCuts(from, cs ssa.Instruction) map[Edge]bool {
 		}
 		cut[Edge{b, b.Succs[idx]}] = true
 	}
-	return cut
+	return cut, false
 }
 
 // RootOf follows the private call sites upwards: the outermost function of which fn is
@@ -1229,7 +1242,13 @@ func BetweenDeep(root *ssa.Function, from, to ssa.Instruction, isA func(ssa.Inst
 			if x == y {
 				return false // `to` sits inside the helper that executes `from`: not decided here
 			}
-			if ReachInstrFrom(After(x), y, AfterCallCuts(from, x), deepB(isA, 0)) == nil {
+			// only the outcomes of the helper that are reachable from `from` without A are
+			// still open in the caller (installRoute: the route was withdrawn ⇒ false)
+			cuts, none := afterCallCuts(from, x, deepB(isA, 0))
+			if none {
+				return true
+			}
+			if ReachInstrFrom(After(x), y, cuts, deepB(isA, 0)) == nil {
 				return true
 			}
 			// not in the common frame: then on the way down to `to`
